@@ -482,6 +482,15 @@ def _exact_kwargs(cfg):
     return [{}, {'subpixels': 1}, {'subpixels': 3}, {'subpixels': 50}][h]
 
 
+def _exact_spelling(cfg):
+    import json
+    import zlib
+    if max(cfg.get('r', 0), cfg.get('rx', 0), cfg.get('ry', 0)) > 10.5:
+        return 'exact'
+    h = zlib.crc32(json.dumps({k: cfg[k] for k in ('shape', 'r', 'rx', 'ry', 'theta', 'phase') if k in cfg}, sort_keys=True, default=str).encode()) // 4 % 8
+    return {0: 'Exact', 1: 'EXACT'}.get(h, 'exact')
+
+
 def check_exact(res, trk, cfg, vias=('to_mask', 'kernel')):
     rx, ry, th = _params(cfg)
     cx, cy = cfg['phase']
@@ -527,7 +536,17 @@ def check_exact(res, trk, cfg, vias=('to_mask', 'kernel')):
             # the configuration: nothing, 1, 3 or 50) the mask holds the exact overlap areas
             kw = _exact_kwargs(cfg)
             res.axis('exact_call_subpixels', str(kw.get('subpixels', 'default')))
-            m = _build(cfg).to_mask(mode='exact', **kw)
+            m = None
+            spell = _exact_spelling(cfg)
+            if spell != 'exact':
+                # a mode name in another letter case is either refused (ValueError) or means the exact mode
+                try:
+                    m = _build(cfg).to_mask(mode=spell, **kw)
+                    res.axis('exact_mode_spelling', spell + ': accepted')
+                except ValueError:
+                    res.axis('exact_mode_spelling', spell + ': refused')
+            if m is None:
+                m = _build(cfg).to_mask(mode='exact', **kw)
         except Exception as exc:
             res.violation(ID, 'unexpected_exception', _case(cfg, 'to_mask'), f"to_mask('exact') raised {type(exc).__name__}: {exc}")
             return
